@@ -144,3 +144,29 @@ def blank_last_rows(idx):
                 handlers={".matches": comp_matches, "self.clear_errors": rec("clear_errors"), "self._do_lasts": rec("_do_lasts")})
     store = {"self.expressions": [[Obj("e0"), None], [Obj("e1"), None]], "self.csvpath.stopped": False, "self.skip": False}
     return fi, it.run_all(fi, store=store)
+
+
+def do_lasts_rows(idx, n=3):
+    """Matcher._do_lasts over n components on the blank last line: each activation may fire stop or skip.
+    Yields (path, activated names, fired effects)."""
+    fi = idx.method("Matcher", "_do_lasts")
+
+    def activate(interp, call, recv, args, kwargs):
+        e = args[0] if args else None
+        name = e.name if isinstance(e, Obj) else str(e)
+        interp.path.__dict__.setdefault("activated", []).append(name)
+        eff = interp.choose(f"{name}.effect", ["none", "stop", "skip"], memo=False)
+        if eff == "stop":
+            interp.store["self.csvpath.stopped"] = True
+        elif eff == "skip":
+            interp.store["self.skip"] = True
+        interp.path.__dict__.setdefault("fired", []).append(eff)
+
+    it = Interp(idx, types={"self": "Matcher"}, inline_all={"Matcher"},
+                domains={"self.csvpath": [Obj("self.csvpath")]},
+                handlers={"self._find_and_actvate_lasts": activate})
+    store = {"self.expressions": [[Obj(f"e{i}"), None] for i in range(n)], "self.csvpath.stopped": False, "self.skip": False}
+    out = []
+    for p in it.run_all(fi, store=store):
+        out.append((p, p.__dict__.get("activated", []), p.__dict__.get("fired", [])))
+    return fi, out
